@@ -87,7 +87,7 @@ CHECKS = {
     ),
     "C16": dict(
         text="Ocf.tla models the ranking object's lazy cache (RankWorld lazy/forced, ComputeAll, Touch by formula_rank/acceptance, Save/SaveFail/Load); TLC checks all interleavings keep the cache exact. Life cycles of real System Z ranking objects (bases consistent for the mode, fact lists, extended in {None, False, True}, random operation orders, plus the System Z operator's answer to the same query) are recorded and validated by TLC: the object's ranks must be KZStar of the fact-augmented base from the semantic core, construction is refused exactly when the combination is inconsistent, acceptance equals the operator whenever the antecedent has a feasible model.",
-        note="Same trusted base as C01 for the semantic core; bases over 2-3 atoms; the object's own partition accessors (layer sizes, extended flag, infinity layer) are validated against the tolerance partition of the augmented base (zview events).",
+        note="Same trusted base as C01 for the semantic core; bases over 2-3 atoms; the object's own partition accessors (layer sizes, extended flag, infinity layer) are validated against the tolerance partition of the augmented base (zview events). CacheExact/DiskExact are additionally proved inductive for any number of worlds, objects and files by TLAPS (spec/OcfProof.tla), re-checked on every run.",
         ref="6 C16", tech="TLA+ life-cycle machine model-checked by TLC; TLC trace validation of recorded object life cycles against the machine and the semantic core",
     ),
     "C18": dict(
@@ -97,7 +97,7 @@ CHECKS = {
     ),
     "C20": dict(
         text="Ocf.tla has an explicit disk: Save from every partial-computation state, SaveFail (unchanged objects), Load; TLC checks cache/disk exactness and that copies agree. Real objects of every kind are saved from partially computed states, with real failures (missing directory, unwritable path, unpicklable member), loaded in the same process and in a fresh interpreter, ranked further on original and copy; impacts and metadata round trips are recorded as equalities; every life cycle is validated by TLC against the machine.",
-        note="Failure points are the two the property names (unwritable target, unserialisable member); a crash of the interpreter in the middle of pickle.dump is not produced. Impact vectors are values: lists handed to / returned by an object are mutated by the driver afterwards and the object must be unaffected. System Z copies must report the same partition.",
+        note="Failure points are the two the property names (unwritable target, unserialisable member); a crash of the interpreter in the middle of pickle.dump is not produced. Impact vectors are values: lists handed to / returned by an object are mutated by the driver afterwards and the object must be unaffected. System Z copies must report the same partition. CacheExact/DiskExact are additionally proved inductive for any number of worlds, objects and files by TLAPS (spec/OcfProof.tla), re-checked on every run.",
         ref="6 C20", tech="TLA+ life-cycle machine with disk and SaveFail action model-checked by TLC; TLC trace validation of recorded save/load histories incl. injected failures",
     ),
     "C17": dict(
